@@ -16,8 +16,11 @@
 From Coq Require Import List NArith Bool.
 From V.gen Require Consts.
 From V.C14 Require Model Proofs.
-From V.C17 Require Model.
-From V.C16 Require Import Model Proofs Obl Bound Chan Exec Time Compose Comp.
+From V.C15 Require Model Engine.
+From V.C17 Require Model Proofs Timed Ingress.
+From V.gen Require C16Tables.
+From V.Ts Require Model Proofs Answers.
+From V.C16 Require Import Model Proofs Obl Bound Chan Exec Time Compose Comp CompTime EngineRef HandleModel Handle Quorum Link.
 Import ListNotations.
 Open Scope N_scope.
 
@@ -235,11 +238,12 @@ Proof. exact seeds_from_table. Qed.
 Print Assumptions C16_seeds_from_table.
 
 (* put_record_to_peers (after the repair of F-C16e): the send phase targets only peers the caller
-   named, never the local peer, and no peer twice when the caller named none twice *)
+   named, never the local peer, and no peer twice when the caller named none twice — whatever the
+   record, the publisher, the expiry and the update_local_store flag are *)
 Theorem C16_put_to_peers_named :
-  forall wc w q qr rk given,
+  forall wc w q qr rk len pub exp upd given,
   keys_ok wc ->
-  exists ps, fst (fst (elab wc w (UPutToPeers q qr rk given))) = EPutToPeers q qr ps /\
+  exists ps, fst (fst (elab wc w (UPutToPeers q qr rk len pub exp upd given))) = EPutToPeers q qr ps /\
              (forall x, In x ps -> In x given /\ x <> g_local (wc_g wc)) /\
              (NoDup given -> NoDup ps).
 Proof. exact put_to_peers_named. Qed.
@@ -255,44 +259,62 @@ Theorem C16_compose_cmds_ok :
 Proof. exact c_sides. Qed.
 Print Assumptions C16_compose_cmds_ok.
 
-(* GetRecord and the local store: with a live local record and Quorum::One the operation answers at
-   once — FoundRecord(local record) then GetRecordSuccess — and neither starts a query nor touches the
+(* ---- the store of the composed world is the C17 model (V.C17.Model maps, V.C17.Timed clock readings,
+   quorums and refresh futures, V.C17.Ingress: the loop around the store) ---- *)
+
+(* C17's store invariant (bounds, sortedness, no provider twice) holds after every composed history *)
+Theorem C16_store_invariant :
+  forall wc m L us,
+  1 <= V.C17.Model.max_per_key (wc_scfg wc) ->
+  V.C17.Proofs.Inv (wc_scfg wc) (w_store (fst (crun wc (w0 wc m L) us))).
+Proof. exact store_inv. Qed.
+Print Assumptions C16_store_invariant.
+
+(* GetRecord and the local store: `hit` = the store holds a record under the key that has not expired at
+   the current clock reading (C16_store_records_live).  With a hit and Quorum::One the operation answers
+   at once — FoundRecord(local record) then GetRecordSuccess — and neither starts a query nor touches the
    network; otherwise a GET_VALUE lookup is started from the table's closest peers, with the local
-   record counted as one found record (and reported as a partial result) when there is one *)
+   record counted as one found record (and reported as a partial result) when there is one.  The store
+   after the command is C17's (an expired record is dropped by the read) *)
 Theorem C16_get_record_local :
   forall wc w q qr rk target,
-  SI wc (w_store w) -> 1 <= wc_ttl wc ->
   let g := wc_g wc in
-  let hit := match V.C17.Model.find_rec rk (V.C17.Model.recs (w_store w)) with Some _ => true | None => false end in
+  let ans := V.C17.Ingress.kstep (kc_of wc) (w_ks w) (V.C17.Ingress.KCmdGetRecord rk) in
+  let hit := is_hit (snd ans) in
   let lookup := start_lookup g (w_st w) q LRec qr
-                  (lcfg g V.C15.Model.KRecord (needed_of g qr) (if hit then 1 else 0) (dists_of wc target))
+                  (lcfg g V.C15.Model.KRecord (needed_of g qr) (if hit then 1 else 0) [] (dists_of wc target))
                   (seeds_of wc (w_rt w) target) in
   fst (cstep wc w (UCmd q (UCGet qr rk) target)) =
   match qr, hit with
-  | QOne, true => (w, [OPartial q (g_local g) LOCAL_REC; OGetRecSuccess q])
-  | _, _ => (mkW lookup (w_rt w) (w_store w) (w_prov w) (w_timers w),
-             if hit then [OPartial q (g_local g) LOCAL_REC] else [])
+  | QOne, true => (mkW (w_st w) (w_rt w) (fst ans), [OPartial q (g_local g) LOCAL_REC; OGetRecSuccess q])
+  | _, _ => (mkW lookup (w_rt w) (fst ans), if hit then [OPartial q (g_local g) LOCAL_REC] else [])
   end.
 Proof. exact get_record_step. Qed.
 Print Assumptions C16_get_record_local.
 
-(* its premise holds in every reachable world: every record of the store carries the configured ttl *)
+(* record expiry: a local GetRecord and a remote GET_VALUE are answered with a record exactly when the
+   store holds one under the key whose expiry lies after the current clock reading *)
 Theorem C16_store_records_live :
-  forall wc m L us, 1 <= wc_ttl wc -> SI wc (w_store (fst (crun wc (w0 wc m L) us))).
-Proof. exact reach_SI. Qed.
+  forall c st key, V.C17.Ingress.ks_dead st = false ->
+  (is_hit (snd (V.C17.Ingress.kstep c st (V.C17.Ingress.KCmdGetRecord key))) = true <->
+   live_rec (V.C17.IngressProofs.kstore st) (V.C17.Ingress.ks_now st) key) /\
+  (forall from, is_hit (snd (V.C17.Ingress.kstep c st (V.C17.Ingress.KGetValue from key))) = true <->
+   live_rec (V.C17.IngressProofs.kstore st) (V.C17.Ingress.ks_now st) key).
+Proof. exact get_hit. Qed.
 Print Assumptions C16_store_records_live.
 
-(* a record this node stored (`stores`: store_record, the local half of put_record, or — with automatic
-   validation — a PUT_VALUE of a remote peer) is found by every later GetRecord(Quorum::One), whatever
-   happened in between, as long as the store's capacity is not exceeded *)
+(* a record in the store (put there by store_record, put_record, put_record_to_peers with
+   update_local_store, or — with automatic validation — a PUT_VALUE of a remote peer) is found by every
+   later GetRecord(Quorum::One), whatever happened in between (time passing included), until it expires or
+   a later event writes a record under the same key *)
 Theorem C16_put_then_get :
-  forall wc m L us1 u us2 q rk target,
-  1 <= wc_ttl wc -> REC_LEN < V.C17.Model.max_size (wc_scfg wc) ->
-  N.of_nat (length (us1 ++ u :: us2)) <= V.C17.Model.max_records (wc_scfg wc) ->
-  stores wc (fst (crun wc (w0 wc m L) us1)) u rk ->
-  let w := fst (crun wc (w0 wc m L) (us1 ++ u :: us2)) in
-  fst (cstep wc w (UCmd q (UCGet QOne rk) target)) =
-  (w, [OPartial q (g_local (wc_g wc)) LOCAL_REC; OGetRecSuccess q]).
+  forall wc w us q rk r target,
+  V.C17.Model.find_rec rk (V.C17.Model.recs (w_store w)) = Some r -> no_write rk us ->
+  let w' := fst (crun wc w us) in
+  V.C17.Model.rec_expired r (w_clock w') = false -> V.C17.Ingress.ks_dead (w_ks w') = false ->
+  snd (fst (cstep wc w' (UCmd q (UCGet QOne rk) target))) =
+    [OPartial q (g_local (wc_g wc)) LOCAL_REC; OGetRecSuccess q] /\
+  w_st (fst (fst (cstep wc w' (UCmd q (UCGet QOne rk) target)))) = w_st w'.
 Proof. exact put_then_get. Qed.
 Print Assumptions C16_put_then_get.
 
@@ -436,48 +458,58 @@ Print Assumptions C16_inbound_isolated.
 
 (* what the node answers: the closer peers of a FIND_NODE / GET_VALUE / GET_PROVIDERS reply are
    RoutingTable::closest of the current table — the function that seeds the node's own lookups: never the
-   local peer, at most k — and GET_VALUE carries the record exactly when the store has it *)
+   local peer, at most k; GET_VALUE carries the record exactly when the store holds an unexpired one; the
+   providers of GET_PROVIDERS are exactly the unexpired provider records the store (C17 model) holds for
+   the key, in stored order *)
 Theorem C16_inbound_reply :
-  forall wc w id rq b ps,
-  keys_ok wc -> V.C14.Proofs.Inv (lkey wc) (wc_K wc) (w_rt w) -> SI wc (w_store w) -> 1 <= wc_ttl wc ->
-  reply_of wc w (UInReq id rq) = Some (b, ps) ->
+  forall wc w id rq b ps pv,
+  keys_ok wc -> V.C14.Proofs.Inv (lkey wc) (wc_K wc) (w_rt w) -> V.C17.Ingress.ks_dead (w_ks w) = false ->
+  reply_of wc w (UInReq id rq) = Some (b, ps, pv) ->
   exists target,
-    (rq = IFindNode target \/ (exists rk, rq = IGetValue rk target) \/ rq = IGetProviders target) /\
+    (rq = IFindNode target \/ (exists rk, rq = IGetValue rk target) \/ (exists rk, rq = IGetProviders rk target)) /\
     ps = seeds_of wc (w_rt w) target /\ ~ In (g_local (wc_g wc)) ps /\
     (length ps <= N.to_nat (g_k (wc_g wc)))%nat /\
-    (b = true <-> exists rk, rq = IGetValue rk target /\ stored (w_store w) rk).
+    (b = true <-> exists rk, rq = IGetValue rk target /\ live_rec (w_store w) (w_clock w) rk) /\
+    (forall rk, rq = IGetProviders rk target ->
+       pv = map (fun p => (peer_of_pid wc (V.C17.Model.p_id p), V.C17.Ingress.serve_addrs (kc_of wc) p))
+                (known_provs (w_ks w) rk) /\
+       Forall (fun p => V.C17.Model.prov_expired p (w_clock w) = false) (known_provs (w_ks w) rk)) /\
+    ((forall rk, rq <> IGetProviders rk target) -> pv = []).
 Proof. exact inbound_reply. Qed.
 Print Assumptions C16_inbound_reply.
 
-(* a record this node stored (store_record, or the local half of put_record) is served to every remote
-   GET_VALUE that comes later *)
+(* a record in the store is served to every remote GET_VALUE that comes before it expires or is written
+   again *)
 Theorem C16_serve_after_put :
-  forall wc m L us1 u us2 rk id target,
-  1 <= wc_ttl wc -> REC_LEN < V.C17.Model.max_size (wc_scfg wc) ->
-  N.of_nat (length (us1 ++ u :: us2)) <= V.C17.Model.max_records (wc_scfg wc) ->
-  stores wc (fst (crun wc (w0 wc m L) us1)) u rk ->
-  let w := fst (crun wc (w0 wc m L) (us1 ++ u :: us2)) in
-  inbound_read (w_st w) id = true ->
-  reply_of wc w (UInReq id (IGetValue rk target)) = Some (true, seeds_of wc (w_rt w) target).
+  forall wc w us rk r id target,
+  V.C17.Model.find_rec rk (V.C17.Model.recs (w_store w)) = Some r -> no_write rk us ->
+  let w' := fst (crun wc w us) in
+  V.C17.Model.rec_expired r (w_clock w') = false -> V.C17.Ingress.ks_dead (w_ks w') = false ->
+  inbound_read (w_st w') id = true ->
+  reply_of wc w' (UInReq id (IGetValue rk target)) = Some (true, seeds_of wc (w_rt w') target, []).
 Proof. exact serve_after_put. Qed.
 Print Assumptions C16_serve_after_put.
 
-(* IncomingRecordValidationMode: in the Manual mode no event of the loop writes the store — an inbound
-   PUT_VALUE only raises IncomingRecord and the user decides with store_record; in the Automatic mode the
-   record is in the store as soon as the request has been read *)
+(* IncomingRecordValidationMode: in the Manual mode no event of the loop and no request of a remote peer
+   adds or alters a record — an inbound PUT_VALUE only raises IncomingRecord and the user decides with
+   store_record; in the Automatic mode the record is handed to the store as soon as the request has been
+   read, with the expiry computed from the ttl of the wire *)
 Theorem C16_manual_validation :
-  forall wc w u,
+  forall wc w u k r,
   wc_vauto wc = false ->
-  (exists e, u = UEv e) \/ (exists id rk, u = UInReq id (IPutValue rk)) ->
-  w_store (fst (fst (cstep wc w u))) = w_store w.
+  (exists e, u = UEv e) \/ (exists id rq, u = UInReq id rq) ->
+  V.C17.Model.find_rec k (V.C17.Model.recs (w_store (fst (fst (cstep wc w u))))) = Some r ->
+  V.C17.Model.find_rec k (V.C17.Model.recs (w_store w)) = Some r.
 Proof. exact manual_validation. Qed.
 Print Assumptions C16_manual_validation.
 
 Theorem C16_auto_validation :
-  forall wc w id rk,
-  wc_vauto wc = true -> inbound_read (w_st w) id = true ->
-  w_store (fst (fst (cstep wc w (UInReq id (IPutValue rk))))) =
-  V.C17.Model.put (wc_scfg wc) (w_store w) (local_record wc rk).
+  forall wc w id rk len pub ttl,
+  wc_vauto wc = true -> inbound_read (w_st w) id = true -> V.C17.Ingress.ks_dead (w_ks w) = false ->
+  pub <> V.C17.Ingress.PUB_INVALID ->
+  w_store (fst (fst (cstep wc w (UInReq id (IPutValue rk len pub ttl))))) =
+  V.C17.Model.put (wc_scfg wc) (w_store w)
+    (V.C17.Ingress.rec_of rk LOCAL_REC len pub (if ttl =? 0 then None else Some (w_clock w + ttl))).
 Proof. exact auto_validation. Qed.
 Print Assumptions C16_auto_validation.
 
@@ -494,26 +526,48 @@ Print Assumptions C16_manual_routing_table.
 
 (* ---- the store's refresh timers ---- *)
 
-(* a refresh timer that fires starts an ADD_PROVIDER operation exactly when the key is still provided —
-   the last start_providing(rk) has not been followed by stop_providing(rk) — with the quorum of that
-   call and seeds from the current table; and then a new timer is armed *)
+(* The refresh futures carry deadlines (V.C17.Timed): `take_due now rk` finds a future of key rk whose
+   deadline has passed.  A completed future starts an ADD_PROVIDER operation exactly when the key is still
+   in local_providers, with the quorum stored there and seeds from the current table ... *)
 Theorem C16_refresh_due :
-  forall wc m L us q rk target,
-  let w := fst (crun wc (w0 wc m L) us) in
-  In rk (w_timers w) ->
-  fst (fst (elab wc w (UFire q rk target))) =
-  match last_prov rk None us with
-  | Some qr => ECmd q (CRefresh qr) (dists_of wc target) (seeds_of wc (w_rt w) target)
+  forall wc w q rk wait target rest,
+  V.C17.Ingress.ks_dead (w_ks w) = false ->
+  take_due (w_clock w + wait) rk (w_timers w) = Some rest ->
+  fst (fst (elab wc w (UFire q rk wait target))) =
+  match V.C17.Timed.find_q rk (w_quorum w) with
+  | Some qc => ECmd q (CRefresh (qdecode qc)) (dists_of wc target) (seeds_of wc (w_rt w) target)
   | None => ENop
-  end /\
-  (last_prov rk None us <> None -> In rk (w_timers (fst (fst (cstep wc w (UFire q rk target)))))).
+  end.
 Proof. exact refresh_due. Qed.
 Print Assumptions C16_refresh_due.
 
-(* as long as a key is provided a timer is armed for it: the refresh will come *)
+(* ... no future of the key has completed: nothing is taken (the event is not a step of the loop) ... *)
+Theorem C16_refresh_not_before_deadline :
+  forall wc w q rk wait target,
+  take_due (w_clock w + wait) rk (w_timers w) = None -> uvalid wc w (UFire q rk wait target) = false.
+Proof. exact refresh_not_due. Qed.
+Print Assumptions C16_refresh_not_before_deadline.
+
+(* ... and when the store accepts the refreshed provider record the next refresh future of the key is
+   pending afterwards *)
+Theorem C16_refresh_rearms :
+  forall wc w q rk wait target rest qc,
+  1 <= wc_interval wc -> V.C17.Ingress.ks_dead (w_ks w) = false ->
+  take_due (w_clock w + wait) rk (w_timers w) = Some rest ->
+  V.C17.Timed.find_q rk (w_quorum w) = Some qc ->
+  snd (V.C17.Model.put_local_provider (wc_scfg wc) (w_store w) rk (lrank wc target) (w_clock w + wait)) = true ->
+  exists t, In t (w_timers (fst (fst (cstep wc w (UFire q rk wait target))))) /\ V.C17.Timed.tm_key t = rk.
+Proof. exact refresh_rearms. Qed.
+Print Assumptions C16_refresh_rearms.
+
+(* as long as a key is in local_providers a refresh future is pending for it: the refresh will come.  For
+   every consistent schedule (`valid_run`: only completed futures are taken, explicit time passing stops
+   before the next deadline, the store accepted the provider record of every refresh) *)
 Theorem C16_provided_has_timer :
-  forall wc m L us rk,
-  last_prov rk None us <> None -> In rk (w_timers (fst (crun wc (w0 wc m L) us))).
+  forall wc m L us rk qc,
+  1 <= wc_interval wc -> valid_run wc (w0 wc m L) us ->
+  let w := fst (crun wc (w0 wc m L) us) in
+  V.C17.Timed.find_q rk (w_quorum w) = Some qc -> exists t, In t (w_timers w) /\ V.C17.Timed.tm_key t = rk.
 Proof. exact provided_has_timer. Qed.
 Print Assumptions C16_provided_has_timer.
 
@@ -563,6 +617,301 @@ Theorem C16_executor_sent :
 Proof. exact exec_sent. Qed.
 Print Assumptions C16_executor_sent.
 
+(* ---- ONE engine model: the multi-query engine layer of Model.v IS C15's QueryEngine model ---- *)
+
+(* `erel` (EngineRef.v): same query ids in the same order; QLookup ~ C15's QL with the same QueryType,
+   quorum, configuration and lookup state (up to the counter `pr`, which FindNodeContext::next_action
+   recomputes before reading it; C15's entry also records its seeds and single-query events as ghosts),
+   QToPeers ~ QM, QTrack ~ QT with the same pending set, success count and threshold.
+   After EVERY history of the loop the engine of the glue model is related to an engine that C15's model
+   reaches by a history of its own calls (`xrunG`: xstep of V.C15.Engine, each start with the distance
+   ranks of its own target) *)
+Theorem C16_engine_is_C15 :
+  forall g m es, exists h, erel (eng (fst (run g (st0 m) es))) (xrunG [] h).
+Proof. exact engine_is_c15. Qed.
+Print Assumptions C16_engine_is_C15.
+
+(* every engine call of the glue model is the C15 call: register_response_failure, register_send_failure,
+   register_send_success, register_peer_failure, register_response with any message the loop passes on,
+   next_peer_action *)
+Theorem C16_engine_calls_refine :
+  forall gc s xe q p, erel (eng s) xe ->
+  erel (eng (eng_resp_fail s q p)) (fst (V.C15.Engine.xstep gc xe (V.C15.Engine.XFail q p))) /\
+  erel (eng (eng_send_fail s q p)) (fst (V.C15.Engine.xstep gc xe (V.C15.Engine.XSendFail q p))) /\
+  erel (eng (eng_send_ok s q p)) (fst (V.C15.Engine.xstep gc xe (V.C15.Engine.XSendOk q p))) /\
+  erel (eng (eng_fail s q p)) (fst (V.C15.Engine.xstep gc xe (V.C15.Engine.XPeerFail q p))) /\
+  (forall m, match m with MAddProvider _ | MInvalid => False | _ => True end ->
+             erel (eng (eng_response s q p m))
+                  (fst (V.C15.Engine.xstep gc xe (V.C15.Engine.XResp q p (mk_of m) (reply_of_msg m))))) /\
+  (lookups_live s ->
+   peer_wanted s q p = match snd (V.C15.Engine.xstep gc xe (V.C15.Engine.XPeerAct q p)) with
+                       | V.C15.Engine.XNone => false | _ => true end).
+Proof. exact engine_calls_refine. Qed.
+Print Assumptions C16_engine_calls_refine.
+
+(* every start is C15's start: the user commands (xstart_of: QueryType, quorum, known_records, known
+   providers), put_record_to_peers, and the tracking contexts of the two send phases — with
+   peers_to_succeed = C15's need_track (the clamp of Quorum::N / All) *)
+Theorem C16_engine_starts_refine :
+  forall g gc s xe q, erel (eng s) xe ->
+  (forall c dists seeds,
+     match xstart_of c with
+     | Some (t, qtag, qn, known, kp) =>
+         erel (eng (fst (on_cmd g s q c dists seeds)))
+              (fst (V.C15.Engine.xstep (gc_of g dists) xe (V.C15.Engine.XStart q t qtag qn known seeds kp)))
+     | None => eng (fst (on_cmd g s q c dists seeds)) = eng s
+     end) /\
+  (forall qr ps, erel (aset q (QToPeers qr ps) (eng s))
+                      (fst (V.C15.Engine.xstep gc xe (V.C15.Engine.XStart q V.C15.Engine.TPutRecordToPeers
+                                                        (qtag_of qr) (qn_of qr) 0 ps [])))) /\
+  (forall pv l qr, erel (aset q (QTrack pv (ndedup l) 0 (clamp qr (N.of_nat (length l)))) (eng s))
+                        (fst (V.C15.Engine.xstep gc xe (V.C15.Engine.XStart q (tt_of pv) (qtag_of qr) (qn_of qr) 0 l [])))).
+Proof. exact engine_starts_refine. Qed.
+Print Assumptions C16_engine_starts_refine.
+
+(* one iteration of the drain loop = C15's next_action for the query the HashMap order picked, followed by
+   on_query_action (`on_action`) on the action C15's engine returned: the terminal KademliaEvents of the
+   glue model are exactly the terminal QueryActions of C15's engine *)
+Theorem C16_engine_serve_refines :
+  forall gc s xe q, erel (eng s) xe -> NoDup (map fst (eng s)) ->
+  exists e', erel e' (fst (V.C15.Engine.xstep gc xe (V.C15.Engine.XNext (now s) (q + 1)))) /\
+             serve s q = on_action (w_eng s e') (snd (V.C15.Engine.xstep gc xe (V.C15.Engine.XNext (now s) (q + 1)))).
+Proof. exact engine_serve_refines. Qed.
+Print Assumptions C16_engine_serve_refines.
+
+(* ---- the user's side: KademliaHandle (HandleModel.v, Handle.v) ---- *)
+
+(* `hrun (h0 cap) ops`: the user calls methods of the handle (`OCall tr body`; every method draws its query
+   id from the shared counter BEFORE it sends), the loop takes commands from the bounded channel (`OTake`),
+   a waiting async method gets its slot (`OWake`), the store branch starts provider refreshes with ids from
+   the same counter (`OFire`), and anything else happens (`OEnv`).  Whatever the interleaving, the user
+   events the loop performs carry fresh ids: the assumption `ufresh` of the composed theorems is discharged *)
+Theorem C16_handle_ids_fresh :
+  forall cap ops, ufresh [] (snd (fst (hrun (h0 cap) ops))).
+Proof. exact handle_ids_fresh. Qed.
+Print Assumptions C16_handle_ids_fresh.
+
+(* hence, through the handle, never two terminal events for one id and exactly one when the operation is not
+   live any more — no freshness assumption left *)
+Theorem C16_handle_one_terminal :
+  forall wc m cap ops q,
+  let us := snd (fst (hrun (h0 cap) ops)) in
+  let W0 := w0 wc m (length (lkey wc)) in
+  (terminals q (snd (crun wc W0 us)) + (if live q (w_st (fst (crun wc W0 us))) then 1 else 0) =
+   cstarted wc W0 q us)%nat /\
+  (cstarted wc W0 q us <= ustarted q us)%nat /\ (cstarted wc W0 q us <= 1)%nat.
+Proof. intros. apply c_one_terminal. apply handle_ids_fresh. Qed.
+Print Assumptions C16_handle_one_terminal.
+
+(* a try_ method that finds the command channel full (or the loop gone) returns Err(()), leaves the channel
+   and a waiting sender untouched — no operation is started, so no terminal event is owed — but the id it
+   has drawn is spent: in every history the loop starts nothing under that id, and no terminal event ever
+   carries it *)
+Theorem C16_handle_try_full :
+  forall cap ops0 b ops1,
+  let h := fst (fst (hrun (h0 cap) ops0)) in
+  h_closed h || full h = true -> draws b = true ->
+  snd (hcall h true b) = RErr /\
+  h_chan (fst (hcall h true b)) = h_chan h /\ h_park (fst (hcall h true b)) = h_park h /\
+  let us := snd (fst (hrun (h0 cap) (ops0 ++ OCall true b :: ops1))) in
+  ustarted (h_next h) us = 0%nat /\
+  forall wc m, terminals (h_next h) (snd (crun wc (w0 wc m (length (lkey wc))) us)) = 0%nat.
+Proof.
+  intros cap ops0 b ops1 h Hf Hd.
+  destruct (try_full_nothing h b Hf) as (R1 & R2 & R3 & _).
+  destruct (failed_try_starts_nothing cap ops0 b ops1 Hf Hd) as [_ Hs]. fold h in Hs.
+  split; [exact R1 |]. split; [exact R2 |]. split; [exact R3 |]. split; [exact Hs |].
+  intros wc m.
+  destruct (c_one_terminal wc m _ (h_next h) (handle_ids_fresh cap (ops0 ++ OCall true b :: ops1)))
+    as (A & B & _).
+  rewrite Hs in B. cbn zeta in A. Lia.lia.
+Qed.
+Print Assumptions C16_handle_try_full.
+
+(* a try_ method that finds a slot queues exactly its command, with the id it returns; the channel is a
+   queue: an accepted command goes to the end and the loop takes from the front *)
+Theorem C16_handle_fifo :
+  (forall h b, h_closed h || full h = false ->
+     snd (hcall h true b) = ROk (if draws b then Some (h_next h) else None) /\
+     h_chan (fst (hcall h true b)) = h_chan h ++ [with_id b (h_next h)]) /\
+  (forall h tr b h' r, hcall h tr b = (h', r) ->
+     h_chan h' = h_chan h \/ h_chan h' = h_chan h ++ [with_id b (h_next h)]) /\
+  (forall h c t, h_chan h = c :: t ->
+     snd (hrecv h) = Some c /\ h_chan (fst (hrecv h)) = t /\ h_park (fst (hrecv h)) = h_park h).
+Proof. split; [exact try_ok_queued |]. split; [exact accepted_last | exact hrecv_fifo]. Qed.
+Print Assumptions C16_handle_fifo.
+
+(* every command is the user event `h2u` of the composed model, and elaborates to the Model.v event whose
+   QueryEngine::start_* call is the one the arm of Kademlia::run for that command makes (coq/gen/C16Tables.v,
+   extracted from the source on every check) *)
+Theorem C16_command_starts_in_sync :
+  forall wc w,
+  Forall (fun c => option_map fst (loop_row (cmd_name c)) = Some (start_name (fst (fst (elab wc w (h2u c))))))
+         cmd_samples.
+Proof. exact command_starts_in_sync. Qed.
+Print Assumptions C16_command_starts_in_sync.
+
+(* the KademliaEvent variants of the source, in order, against the model's outputs: the terminal events all
+   carry a query id; RoutingTableUpdate, IncomingRecord and IncomingProvider carry none and are never
+   terminal; GetRecordPartialResult carries one and is not terminal *)
+Theorem C16_events_classified :
+  map (fun r => (fst r, has_field F_QUERY_ID r)) V.gen.C16Tables.events =
+    map (fun x => (fst (fst x), snd (fst x))) tbl_events /\
+  map (fun x => fst (fst x)) (filter (fun x => snd (fst x) && negb (snd x)) tbl_events) = EV_PARTIAL /\
+  map (fun x => fst (fst x)) (filter (fun x => negb (snd (fst x))) tbl_events) =
+    EV_NOID /\
+  forall x, In x tbl_events -> snd x = true -> snd (fst x) = true.
+Proof. exact events_classified. Qed.
+Print Assumptions C16_events_classified.
+
+(* the tables extracted from handle.rs / mod.rs / executor.rs / target_peers.rs are the model's: enum Quorum
+   (N carries a NonZeroUsize), the command variants, the fifteen methods (which command, which draw an id,
+   send or try_send), the event each QueryAction is turned into, peers_to_succeed, the executor, service,
+   refresh and command arms of the loop, the three results of service.dial that open_substream_or_dial tells apart *)
+Theorem C16_tables_in_sync :
+  V.gen.C16Tables.quorum = tbl_quorum /\
+  map fst V.gen.C16Tables.commands = tbl_commands /\
+  V.gen.C16Tables.methods = tbl_methods /\
+  map (fun r => (fst (fst r), snd (fst r))) V.gen.C16Tables.actions = tbl_action_events /\
+  V.gen.C16Tables.need = tbl_need /\
+  V.gen.C16Tables.results = tbl_results /\
+  V.gen.C16Tables.transports = tbl_transports /\
+  V.gen.C16Tables.refresh = tbl_refresh /\
+  V.gen.C16Tables.dial_arms = tbl_dial_arms /\
+  map (fun r : String.string * list String.string * list String.string * list String.string => (fst (fst (fst r)), snd (fst r)))
+      V.gen.C16Tables.loop_cmds = tbl_cmd_store /\
+  map (fun r : String.string * list String.string * list String.string * list String.string => (fst (fst (fst r)), snd r))
+      (filter (fun r : String.string * list String.string * list String.string * list String.string =>
+                 match snd r with [] => false | _ => true end) V.gen.C16Tables.loop_cmds) =
+    GETRECORD_ROW.
+Proof. exact tables_in_sync. Qed.
+Print Assumptions C16_tables_in_sync.
+
+(* ---- the quorum clause, variant by variant (Quorum.v) ---- *)
+
+(* for every put / announce variant — put_record, put_record_to_peers with either value of
+   update_local_store, start_providing, and the refresh re-announcement started by the store — the command
+   the loop performs carries the quorum the user asked for (a refresh: the quorum stored with the key), so
+   `find_quorum` in C16_quorum_honest / C16_compose_quorum_honest is THE requested quorum *)
+Theorem C16_quorum_variants :
+  forall wc w q,
+  (forall qr rk len e t,
+     quorum_of_ev q (fst (fst (elab wc w (UCmd q (UCPut qr rk len e) t)))) = Some qr) /\
+  (forall qr rk t,
+     quorum_of_ev q (fst (fst (elab wc w (UCmd q (UCProv qr rk) t)))) = Some qr) /\
+  (forall qr rk len pb e upd given,
+     quorum_of_ev q (fst (fst (elab wc w (UPutToPeers q qr rk len pb e upd given)))) = Some qr) /\
+  (forall rk wait t ks' qc,
+     fire1 wc (age (w_ks w) wait) rk (lrank wc t) = Some (ks', Some qc) ->
+     quorum_of_ev q (fst (fst (elab wc w (UFire q rk wait t)))) = Some (qdecode qc)).
+Proof. exact elab_quorum. Qed.
+Print Assumptions C16_quorum_variants.
+
+(* enum Quorum (coq/gen/C16Tables.v: All, One, N(NonZeroUsize)): what "the requested quorum" is for a target
+   list of `len` peers.  One: 1.  All: every target (1 when there is none — never reached, the operation
+   fails).  N(n): n when there are at least n targets; with fewer targets every one of them (the clamp of
+   PutToTargetPeersContext::new, deliberate and commented in the source).  N(0) cannot be written
+   (NonZeroUsize) and a stored quorum never decodes to it: at least one peer is always required *)
+Theorem C16_quorum_clamp :
+  (forall h len,
+     1 <= clamp (q_of h) len /\
+     match h with
+     | HOne => clamp (q_of h) len = 1
+     | HAll => clamp (q_of h) len = N.max len 1
+     | HN n => (Npos n <= len -> clamp (q_of h) len = Npos n) /\
+               (1 <= len -> len <= Npos n -> clamp (q_of h) len = len) /\
+               (len = 0 -> clamp (q_of h) len = 1)
+     end) /\
+  (forall h, q_of h <> QN 0) /\ (forall c, qdecode c <> QN 0).
+Proof. split; [exact clamp_api |]. split; [exact q_of_nonzero | exact qdecode_nonzero]. Qed.
+Print Assumptions C16_quorum_clamp.
+
+(* with a quorum the API can express, a success needs at least ONE target peer that was sent the data: in
+   particular no success with an empty target list *)
+Theorem C16_success_needs_a_send :
+  forall g m es q,
+  fresh_ids [] es -> cmds_ok g es ->
+  (forall qr, find_quorum q es = Some qr -> qr <> QN 0) ->
+  let outs := snd (run g (st0 m) es) in
+  In (OPutSuccess q) outs \/ In (OProvSuccess q) outs ->
+  exists targets p, In (OTrack q targets) outs /\ In p targets /\ In (q, p) (put_sends g (st0 m) es).
+Proof. exact success_needs_a_send. Qed.
+Print Assumptions C16_success_needs_a_send.
+
+(* the clause for every history that goes through the KademliaHandle — PutRecord, PutRecordToPeers (both
+   values of update_local_store), StartProviding, the refresh re-announcements; Quorum::One / N / All —
+   with no assumption on ids or quorums left (`ops_ok`: put_record_to_peers is not given a peer twice) *)
+Theorem C16_handle_quorum_honest :
+  forall wc m cap ops q,
+  keys_ok wc -> ops_ok (wc_g wc) ops ->
+  let us := snd (fst (hrun (h0 cap) ops)) in
+  let W0 := w0 wc m (length (lkey wc)) in
+  let outs := snd (crun wc W0 us) in
+  let es := elabs wc W0 us in
+  In (OPutSuccess q) outs \/ In (OProvSuccess q) outs ->
+  exists targets qr S,
+    find_quorum q es = Some qr /\ qr <> QN 0 /\ In (OTrack q targets) outs /\ NoDup S /\
+    clamp qr (N.of_nat (length targets)) <= N.of_nat (length S) /\ (1 <= length S)%nat /\
+    (forall p, In p S -> In (q, p) (put_sends (wc_g wc) (st0 m) es) /\ In p targets).
+Proof. exact handle_quorum_honest. Qed.
+Print Assumptions C16_handle_quorum_honest.
+
+(* ---- "within bounded time", for composed histories (CompTime.v) ---- *)
+Theorem C16_compose_bounded_time :
+  forall wc m D us0 ua u ub,
+  1 <= g_alpha (wc_g wc) ->
+  let W0 := w0 wc m (length (lkey wc)) in
+  let w1 := fst (crun wc W0 us0) in
+  let es1 := elabs wc w1 (ua ++ u :: ub) in
+  is_tick (fst (fst (elab wc (fst (crun wc w1 ua)) u))) = false ->
+  fair_run (wc_g wc) (w_st w1) es1 ->
+  timed D (wc_g wc) (w_st w1) (restamp (now (w_st w1)) [] (okeys (w_st w1))) es1 ->
+  now (w_st (fst (crun wc w1 ua))) <= now (w_st w1) + D * N.of_nat (S (length (work (elabs wc w1 ua)))).
+Proof. exact c_bounded_time. Qed.
+Print Assumptions C16_compose_bounded_time.
+
+Theorem C16_compose_bounded_time_budget :
+  forall wc m D U us0 ua u ub,
+  keys_ok wc -> 1 <= g_alpha (wc_g wc) ->
+  (forall p, In p (UNKNOWN :: map fst (wc_keys wc)) -> In p U) ->
+  ufresh [] (us0 ++ ua ++ u :: ub) -> Forall (ucmd_ok (wc_g wc)) us0 -> Forall (uev_in_U U) (us0 ++ ua ++ u :: ub) ->
+  let W0 := w0 wc m (length (lkey wc)) in
+  let w1 := fst (crun wc W0 us0) in
+  let es1 := elabs wc w1 (ua ++ u :: ub) in
+  is_tick (fst (fst (elab wc (fst (crun wc w1 ua)) u))) = false ->
+  fair_run (wc_g wc) (w_st w1) es1 ->
+  timed D (wc_g wc) (w_st w1) (restamp (now (w_st w1)) [] (okeys (w_st w1))) es1 ->
+  now (w_st (fst (crun wc w1 ua))) <= now (w_st w1) + D * N.of_nat (budget (length U) (wc_g wc) (elabs wc W0 us0)).
+Proof. exact c_bounded_time_budget. Qed.
+Print Assumptions C16_compose_bounded_time_budget.
+
+(* ---- the layers below (Link.v) ---- *)
+
+(* the assumption `feasible` (C16_dischargeable: the service reports SubstreamOpened{Outbound(id)} for the
+   peer the substream was requested from) is a THEOREM of the TransportService model of C08 / C09 (coq/Ts):
+   along every history of the service from its initial state, with `m` the pending_substreams map kept as
+   kademlia/mod.rs keeps it (`kad_track`: inserted when open_substream(p) returns Ok(id), removed when the
+   answer for id arrives), every outbound SubstreamOpened names the peer recorded for its id, or the id is
+   not pending any more — which is `feasible` for the event EOpened p id *)
+Theorem C16_link_service_feasible :
+  (forall ka T n0 tr,
+     V.Ts.Proofs.nowrap (V.Ts.Model.init ka T n0) tr -> feasible_along (V.Ts.Model.init ka T n0) [] tr) /\
+  (forall m os s16 p id,
+     step_feasible m os -> psub s16 = m -> In (V.Ts.Model.OSub p (Some id)) os -> feasible s16 (EOpened p id)).
+Proof. split; [exact service_answers_feasible | exact step_feasible_is_feasible]. Qed.
+Print Assumptions C16_link_service_feasible.
+
+(* dials (C05_sys_progress / C05_sysT_progress / C05_tr_progress_dial: a dial the manager accepted is
+   answered by ConnectionEstablished or DialFailure): whenever an action is queued in pending_dials for p,
+   both answers are productive events of the glue model — neither is refused or lost *)
+Theorem C16_link_dial_answers :
+  forall s p a acts,
+  aget p (pdial s) = Some (a :: acts) ->
+  productive s (EDialFail p) /\
+  (aget p (conn s) = None -> aget p (peers s) = None -> forall alive, productive s (EEstablished p alive)).
+Proof. exact dial_answers_productive. Qed.
+Print Assumptions C16_link_dial_answers.
+
 (* the shipped parallelism factor and executor timeouts satisfy what is assumed above *)
 Theorem C16_default_config :
   1 <= V.gen.Consts.PARALLELISM_FACTOR /\ 0 < V.gen.Consts.KAD_READ_TIMEOUT_SECS /\
@@ -601,35 +950,48 @@ Example C16_nonvacuous_stale :
 Proof. vm_compute. repeat split; reflexivity. Qed.
 
 (* the composition is not vacuous: a world of three peers with 2-bit keys satisfies `keys_ok`; the peer
-   added to the table seeds the lookup, and a stored record is answered locally *)
+   added to the table seeds the lookup, and a stored record is answered locally — until it expires *)
 Example C16_nonvacuous_compose :
+  let us := [UAddKnownPeer 0 true; UEv (EEstablished 0 true); UCmd 0 UCFind [true; true]; UEv (EServe 0);
+             UEv (EOpened 0 0); UEv (EFut 0 (RRead (MFindNode [1]))); UEv (EServe 0); UEv (EOpenFail 1); UEv (EServe 0);
+             UStoreRecord 7 1 0 (Some 5); UAge 4; UCmd 1 (UCGet QOne 7) [true; false];
+             UAge 1; UCmd 2 (UCGet QOne 7) [true; false]] in
   keys_ok ex_wc /\
-  snd (crun ex_wc (w0 ex_wc [(0, 2)] 2)
-         [UAddKnownPeer 0 true; UEv (EEstablished 0 true); UCmd 0 UCFind [true; true]; UEv (EServe 0);
-          UEv (EOpened 0 0); UEv (EFut 0 (RRead (MFindNode [1]))); UEv (EServe 0); UEv (EOpenFail 1); UEv (EServe 0);
-          UStoreRecord 7; UCmd 1 (UCGet QOne 7) [true; false]]) =
-  [ORouting [1]; OFindNodeSuccess 0 [0]; OPartial 1 99 LOCAL_REC; OGetRecSuccess 1].
-Proof. split; [exact ex_wc_ok | vm_compute; reflexivity]. Qed.
+  snd (crun ex_wc (w0 ex_wc [(0, 2)] 2) us) =
+  [ORouting [1]; OFindNodeSuccess 0 [0]; OPartial 1 99 LOCAL_REC; OGetRecSuccess 1] /\
+  live 1 (w_st (fst (crun ex_wc (w0 ex_wc [(0, 2)] 2) us))) = false /\
+  live 2 (w_st (fst (crun ex_wc (w0 ex_wc [(0, 2)] 2) us))) = true.
+Proof. split; [exact ex_wc_ok | vm_compute; repeat split; reflexivity]. Qed.
 
 (* the new layers are not vacuous.  Requests of remote peers: the reply to an inbound FIND_NODE names the
-   peer the user added to the table.  Refresh timers: the timer of a provided key starts a refresh with
-   the quorum of start_providing; after stop_providing it fires without effect.  Manual validation:
-   an inbound PUT_VALUE leaves the store empty, in the Automatic mode it is stored *)
+   peer the user added to the table; an inbound ADD_PROVIDER of the sender is stored and served to a later
+   GET_PROVIDERS — until the provider record expires — and handed to the node's own get_providers as a
+   known provider.  Refresh futures: the future of a provided key completes after the refresh interval
+   and starts a refresh with the quorum of start_providing; before the deadline nothing is taken; after
+   stop_providing the completed future has no effect.  Manual validation: an inbound PUT_VALUE leaves the
+   store empty, in the Automatic mode it is stored *)
 Example C16_nonvacuous_inbound_refresh :
   let W0 := w0 ex_wc [(0, 2); (1, 2)] 2 in
   let pre := [UAddKnownPeer 0 true; UEv (EEstablished 1 true); UEv (EInbound 1 100)] in
   let w := fst (crun ex_wc W0 pre) in
-  reply_of ex_wc w (UInReq 100 (IFindNode [true; true])) = Some (false, [0]) /\
-  map V.C17.Model.r_key (V.C17.Model.recs (w_store (fst (fst (cstep ex_wc w (UInReq 100 (IPutValue 5))))))) = [5] /\
-  (let wm := mkWC (wc_g ex_wc) (wc_keys ex_wc) (wc_pool ex_wc) (wc_K ex_wc) (wc_scfg ex_wc) (wc_ttl ex_wc) true false in
+  reply_of ex_wc w (UInReq 100 (IFindNode [true; true])) = Some (false, [0], []) /\
+  map V.C17.Model.r_key (V.C17.Model.recs (w_store (fst (fst (cstep ex_wc w (UInReq 100 (IPutValue 5 1 0 0))))))) = [5] /\
+  (let wm := mkWC (wc_g ex_wc) (wc_keys ex_wc) (wc_pool ex_wc) (wc_K ex_wc) (wc_scfg ex_wc) (wc_ttl ex_wc) true false
+                  (wc_interval ex_wc) (wc_npub ex_wc) in
    V.C17.Model.recs (w_store (fst (fst (cstep wm (fst (crun wm (w0 wm [(0, 2); (1, 2)] 2) pre))
-                                             (UInReq 100 (IPutValue 5)))))) = []) /\
-  (let w1 := fst (crun ex_wc W0 [UCmd 0 (UCProv QOne 5) [true; true]]) in
-   fst (fst (elab ex_wc w1 (UFire 1 5 [true; true]))) = ECmd 1 (CRefresh QOne) [1; 0] [] /\
-   w_timers (fst (fst (cstep ex_wc w1 (UFire 1 5 [true; true])))) = [5]) /\
-  (let w2 := fst (crun ex_wc W0 [UCmd 0 (UCProv QOne 5) [true; true]; UStopProviding 5]) in
-   fst (fst (elab ex_wc w2 (UFire 1 5 [true; true]))) = ENop /\
-   w_timers (fst (fst (cstep ex_wc w2 (UFire 1 5 [true; true])))) = []).
+                                             (UInReq 100 (IPutValue 5 1 0 0)))))) = []) /\
+  (let wa := fst (fst (cstep ex_wc w (UInReq 100 (IAddProvider 6 [(1, 2, 1)] [true; true])))) in
+   let wb := fst (crun ex_wc wa [UEv (EInbound 1 101)]) in
+   reply_of ex_wc wb (UInReq 101 (IGetProviders 6 [true; true])) = Some (false, [0], [(1, 2)]) /\
+   reply_of ex_wc (fst (crun ex_wc wb [UAge 100])) (UInReq 101 (IGetProviders 6 [true; true])) = Some (false, [0], []) /\
+   fst (fst (elab ex_wc wb (UCmd 3 (UCGetProv 6) [true; true]))) = ECmd 3 (CGetProviders [(1, [0; 1])]) (dists_of ex_wc [true; true]) [0]) /\
+  (let w1 := fst (crun ex_wc W0 [UCmd 0 (UCProv (QN 2) 5) [true; true]]) in
+   uvalid ex_wc w1 (UFire 1 5 29 [true; true]) = false /\
+   fst (fst (elab ex_wc w1 (UFire 1 5 30 [true; true]))) = ECmd 1 (CRefresh (QN 2)) (dists_of ex_wc [true; true]) [] /\
+   map V.C17.Timed.tm_key (w_timers (fst (fst (cstep ex_wc w1 (UFire 1 5 30 [true; true]))))) = [5]) /\
+  (let w2 := fst (crun ex_wc W0 [UCmd 0 (UCProv QOne 5) [true; true]; UStopProviding 5 [true; true]]) in
+   fst (fst (elab ex_wc w2 (UFire 1 5 30 [true; true]))) = ENop /\
+   w_timers (fst (fst (cstep ex_wc w2 (UFire 1 5 30 [true; true])))) = []).
 Proof. vm_compute. repeat split; reflexivity. Qed.
 
 (* a timed, fair schedule: the substream is opened 5 time units after it was asked for, the reply comes 7
